@@ -11,13 +11,13 @@ def main():
     ap.add_argument("--seed", type=int, default=1); ap.add_argument("--throws", type=float, default=0.15)
     ap.add_argument("--subs", type=float, default=0.25); ap.add_argument("--enq", type=float, default=0.1)
     ap.add_argument("--drain", type=float, default=0.1); ap.add_argument("--restart", type=float, default=0.05)
-    ap.add_argument("--startsubs", type=float, default=0.1); ap.add_argument("--copy", type=float, default=0.0); ap.add_argument("--ninst", type=int, default=1); ap.add_argument("--destroy", type=float, default=0.0); ap.add_argument("--saveload", type=float, default=0.0)
+    ap.add_argument("--startsubs", type=float, default=0.1); ap.add_argument("--copy", type=float, default=0.0); ap.add_argument("--ninst", type=int, default=1); ap.add_argument("--destroy", type=float, default=0.0); ap.add_argument("--saveload", type=float, default=0.0); ap.add_argument("--fe", default="functor")
     ap.add_argument("--maxcalls", type=int, default=7); ap.add_argument("--show", type=int, default=12)
     a = ap.parse_args()
     d = core.load_def(a.name)
     cfgs = [c for c in gen.CONFIGS if core.supported(d, c)] if a.cfgs == "all" else a.cfgs.split(",")
     t0 = time.time()
-    bins = core.build_many([(a.name, c) for c in cfgs])
+    bins = core.build_many([(a.name, c) for c in cfgs], fe=a.fe)
     print("built %d drivers in %.1fs" % (len(bins), time.time() - t0))
     wd = os.path.join(core.VERIF, "work", "fuzz_%s_%d" % (a.name, os.getpid()))
     v = core.Validator(wd)
